@@ -59,6 +59,8 @@ type Item struct {
 	// Split: distribute the depth-1 subtrees of this item over the shards
 	// (otherwise the caller distributes whole items with Report.Mine).
 	Split bool
+	// NoCache disables happens-before state caching for this item.
+	NoCache bool
 }
 
 type Options struct {
@@ -66,6 +68,7 @@ type Options struct {
 	Harness    string
 	Tier       string
 	Bound      int
+	NoCache    bool
 	Shard      int
 	NShards    int
 	OutDir     string
@@ -112,6 +115,7 @@ type Report struct {
 	Notes          []string         `json:"notes"`
 	MaxThreads     int              `json:"max_threads"`
 	ConflictExecs  int64            `json:"conflict_execs"`
+	PrunedExecs    int64            `json:"pruned_execs"`
 
 	states map[uint64]struct{}
 	bySig  map[string]*Violation
@@ -210,11 +214,15 @@ func defaultPost(x *Exec, res *rt.Result) {
 }
 
 func (rp *Report) runOnce(it *Item, prefix []int, fps []uint64, trace bool) (*Exec, *rt.Result) {
+	return rp.runOnceV(it, prefix, fps, trace, nil)
+}
+
+func (rp *Report) runOnceV(it *Item, prefix []int, fps []uint64, trace bool, visit func(uint64, int) bool) (*Exec, *rt.Result) {
 	x := &Exec{Item: it.Name}
-	cfg := rt.Config{Prefix: prefix, PrefixFP: fps, MaxSteps: it.MaxSteps, MaxClock: it.MaxClock, Trace: trace}
+	cfg := rt.Config{Prefix: prefix, PrefixFP: fps, MaxSteps: it.MaxSteps, MaxClock: it.MaxClock, Trace: trace, Visit: visit}
 	res := rt.Execute(cfg, func() { it.Body(x) })
 	x.Res = res
-	if res.Diverged == "" && !res.StepCap && !res.ClockCap {
+	if res.Diverged == "" && !res.StepCap && !res.ClockCap && !res.Pruned {
 		if it.Post != nil {
 			it.Post(x, res)
 		} else {
@@ -236,6 +244,17 @@ func (rp *Report) Explore(it *Item) {
 	}
 	var rec func(prefix []int, fps []uint64, depth int)
 	stop := false
+	var visit func(uint64, int) bool
+	if !it.NoCache && !rp.opts.NoCache && bound > 0 {
+		cache := map[uint64]int8{}
+		visit = func(key uint64, cost int) bool {
+			if c, ok := cache[key]; ok && int(c) <= cost {
+				return true
+			}
+			cache[key] = int8(cost)
+			return false
+		}
+	}
 	rec = func(prefix []int, fps []uint64, depth int) {
 		if stop {
 			return
@@ -262,7 +281,7 @@ func (rp *Report) Explore(it *Item) {
 				}
 			}
 		}
-		x, res := rp.runOnce(it, prefix, fps, false)
+		x, res := rp.runOnceV(it, prefix, fps, false, visit)
 		if !counted && res.Diverged == "" {
 			x.failures = nil
 		}
@@ -289,10 +308,14 @@ func (rp *Report) Explore(it *Item) {
 		if res.ClockCap {
 			rp.Cap("clock_cap")
 		}
-		if x.nontriv {
-			rp.Nontrivial++
+		if res.Pruned {
+			rp.PrunedExecs++
+		} else {
+			if x.nontriv {
+				rp.Nontrivial++
+			}
+			rp.AddOutcome(strings.Join(x.outcome, "|"))
 		}
-		rp.AddOutcome(strings.Join(x.outcome, "|"))
 		choices := make([]int, len(res.Points))
 		for i := range res.Points {
 			choices[i] = res.Points[i].Chosen
